@@ -155,3 +155,406 @@ Proof.
   - destruct (read_fields_no_panic oifs line (Z.of_nat k) raw) as [fs Ef]. rewrite Ef. eexists. reflexivity.
   - destruct (read_fields_no_panic oifs line (-1)%Z raw) as [fs Ef]. rewrite Ef. eexists. reflexivity.
 Qed.
+
+(* ---- ReadFields computes the bash/POSIX read fields -------------------------------------- *)
+(* positions of the fields: the same three states as rs_*, counting characters *)
+Fixpoint ps_start (off : nat) (l : list rsym) : list (nat * nat) :=
+  match l with
+  | [] => []
+  | (_, KC) :: l' => ps_field off (S off) l'
+  | (_, KW) :: l' => ps_start (S off) l'
+  | (_, KD) :: l' => (off, off) :: ps_start (S off) l'
+  end
+with ps_field (st off : nat) (l : list rsym) : list (nat * nat) :=
+  match l with
+  | [] => [(st, off)]
+  | (_, KC) :: l' => ps_field st (S off) l'
+  | (_, KW) :: l' => (st, off) :: ps_afterws (S off) l'
+  | (_, KD) :: l' => (st, off) :: ps_start (S off) l'
+  end
+with ps_afterws (off : nat) (l : list rsym) : list (nat * nat) :=
+  match l with
+  | [] => []
+  | (_, KC) :: l' => ps_field off (S off) l'
+  | (_, KW) :: l' => ps_afterws (S off) l'
+  | (_, KD) :: l' => ps_start (S off) l'
+  end.
+
+Section Sim.
+Variable ifs : str.
+Variable raw : bool.
+
+Definition rsym_of (c : N * bool) : rsym := (fst c, kind_of ifs c).
+
+(* what the final position list will be if the rest of the line is l *)
+Definition expected (s : rst) (l : list rsym) : list (nat * nat) :=
+  match infield s, fpos s with
+  | true, (st, _) :: t => rev t ++ ps_field st (length (buf s)) l
+  | true, [] => []
+  | false, fp => rev fp ++ (if wsdl s then ps_afterws (length (buf s)) l else ps_start (length (buf s)) l)
+  end.
+
+Definition final_fp (s : rst) : list (nat * nat) :=
+  match fpos s with
+  | [] => []
+  | (st, e) :: t => rev (if infield s then (st, length (buf s)) :: t else (st, e) :: t)
+  end.
+
+Lemma final_fp_expected : forall s, rinv s -> final_fp s = expected s [].
+Proof.
+  intros s [_ H]. unfold final_fp, expected.
+  destruct (fpos s) as [|[st e] t]; rewrite ?H.
+  - destruct (wsdl s); reflexivity.
+  - destruct (infield s); simpl.
+    + reflexivity.
+    + destruct (wsdl s); rewrite app_nil_r; reflexivity.
+Qed.
+
+(* trailing IFS white space: buf = A ++ B, B all IFS white space, A does not end in one, trim_end = |A| *)
+Definition tinv (s : rst) : Prop :=
+  exists A B, buf s = A ++ B /\ length A = trim_end s /\ Forall (fun r => ifs_ws ifs r = true) B /\
+              (A = [] \/ exists A' x, A = A' ++ [x] /\ ifs_ws ifs x = false).
+
+Lemma step_sim : forall s r, rinv s -> tinv s ->
+  if (r =? BSL) && negb raw && negb (esc s) then
+    exists s', rf_step ifs raw s r = Ok s' /\ rinv s' /\ tinv s' /\ esc s' = true /\ buf s' = buf s /\
+               (forall l, expected s' l = expected s l)
+  else
+    exists s', rf_step ifs raw s r = Ok s' /\ rinv s' /\ tinv s' /\ esc s' = false /\ buf s' = buf s ++ [r] /\
+               (forall l, expected s' l = expected s (rsym_of (r, esc s) :: l)).
+Proof.
+  intros s r Hinv Htinv.
+  destruct (rf_step_inv ifs raw s r Hinv) as (s' & Estep & Hinv').
+  destruct ((r =? BSL) && negb raw && negb (esc s)) eqn:Ebs.
+  - exists s'. pose proof Estep as Estep0. unfold rf_step in Estep. rewrite Ebs in Estep. inversion Estep; subst s'.
+    split; [exact Estep0|]. split; [exact Hinv'|]. split; [exact Htinv|].
+    split; [reflexivity|]. split; [reflexivity|]. intros l. reflexivity.
+  - exists s'. split; [exact Estep|]. split; [exact Hinv'|].
+    unfold rf_step in Estep. rewrite Ebs in Estep.
+    assert (Hlen : length (buf s ++ [r]) = S (length (buf s))) by (rewrite app_length; simpl; lia).
+    (* tinv for the new buffer *)
+    assert (Ht' : forall fp inf w,
+       tinv (mkr fp (buf s ++ [r]) (if ifs_ws ifs r then trim_end s else length (buf s ++ [r])) inf w false)).
+    { intros fp inf w. destruct Htinv as (A & B & HAB & HA & HB & Hlast). unfold tinv. cbn [buf trim_end].
+      destruct (ifs_ws ifs r) eqn:Ews.
+      - exists A, (B ++ [r]). split; [rewrite HAB, app_assoc; reflexivity|]. split; [exact HA|].
+        split; [apply Forall_app; split; [exact HB|constructor; [exact Ews|constructor]]|exact Hlast].
+      - exists (buf s ++ [r]), []. split; [rewrite app_nil_r; reflexivity|]. split; [reflexivity|].
+        split; [constructor|]. right. exists (buf s), r. split; [reflexivity|exact Ews]. }
+    unfold rsym_of, kind_of. cbn [fst].
+    destruct Hinv as [_ Hf].
+    destruct (negb (esc s) && ifs_rune ifs r) eqn:Esep; cbn [negb] in Estep.
+    + (* a separator *)
+      destruct (infield s) eqn:Ein.
+      * destruct (fpos s) as [|[st e] t] eqn:Ef; [discriminate|].
+        inversion Estep; subst s'. split; [apply Ht'|]. split; [reflexivity|]. split; [reflexivity|].
+        intros l. unfold expected. cbn [infield fpos buf wsdl]. rewrite Ein, Ef, Hlen.
+        cbn [andb]. destruct (ifs_ws ifs r); simpl; rewrite <- app_assoc; reflexivity.
+      * cbn [andb] in Estep. destruct (ifs_ws ifs r) eqn:Ews.
+        -- inversion Estep; subst s'. split; [apply Ht'|]. split; [reflexivity|]. split; [reflexivity|].
+           intros l. unfold expected. cbn [infield fpos buf wsdl]. rewrite Ein, Hlen.
+           destruct (wsdl s); reflexivity.
+        -- destruct (wsdl s) eqn:Ew.
+           ++ inversion Estep; subst s'. split; [apply Ht'|]. split; [reflexivity|]. split; [reflexivity|].
+              intros l. unfold expected. cbn [infield fpos buf wsdl]. rewrite Ein, Ew, Hlen. reflexivity.
+           ++ inversion Estep; subst s'. split; [apply Ht'|]. split; [reflexivity|]. split; [reflexivity|].
+              intros l. unfold expected. cbn [infield fpos buf wsdl]. rewrite Ein, Ew, Hlen.
+              simpl. rewrite <- app_assoc. reflexivity.
+    + (* an ordinary (or escaped) character *)
+      destruct (infield s) eqn:Ein.
+      * inversion Estep; subst s'. split; [apply Ht'|]. split; [reflexivity|]. split; [reflexivity|].
+        intros l. unfold expected. cbn [infield fpos buf wsdl]. rewrite Ein, Hlen.
+        destruct (fpos s) as [|[st e] t]; reflexivity.
+      * inversion Estep; subst s'. split; [apply Ht'|]. split; [reflexivity|]. split; [reflexivity|].
+        intros l. unfold expected. cbn [infield fpos buf wsdl]. rewrite Ein, Hlen.
+        destruct (wsdl s); reflexivity.
+Qed.
+
+Lemma loop_sim : forall line s, rinv s -> tinv s ->
+  exists s', rf_loop ifs raw line s = Ok s' /\ rinv s' /\ tinv s' /\
+    buf s' = buf s ++ map fst (unescape raw line (esc s)) /\
+    final_fp s' = expected s (map rsym_of (unescape raw line (esc s))).
+Proof.
+  induction line as [|r line IH]; intros s Hinv Ht.
+  - exists s. simpl. rewrite app_nil_r.
+    split; [reflexivity|]. split; [exact Hinv|]. split; [exact Ht|]. split; [reflexivity|].
+    apply final_fp_expected. exact Hinv.
+  - pose proof (step_sim s r Hinv Ht) as Hs. cbn [rf_loop unescape].
+    destruct ((r =? BSL) && negb raw && negb (esc s)) eqn:Ebs.
+    + destruct Hs as (s1 & E1 & Hi1 & Ht1 & Hesc & Hbuf & Hexp). rewrite E1.
+      destruct (IH s1 Hi1 Ht1) as (s' & E' & Hi' & Ht' & Hb' & Hf').
+      exists s'. rewrite Hesc, Hbuf in Hb'. rewrite Hesc, Hexp in Hf'.
+      split; [exact E'|]. split; [exact Hi'|]. split; [exact Ht'|]. split; [exact Hb'|exact Hf'].
+    + destruct Hs as (s1 & E1 & Hi1 & Ht1 & Hesc & Hbuf & Hexp). rewrite E1.
+      destruct (IH s1 Hi1 Ht1) as (s' & E' & Hi' & Ht' & Hb' & Hf').
+      exists s'. rewrite Hesc, Hbuf in Hb'. rewrite Hesc, Hexp in Hf'.
+      split; [exact E'|]. split; [exact Hi'|]. split; [exact Ht'|]. split; [|exact Hf'].
+      rewrite Hb'. cbn [map fst]. rewrite <- app_assoc. reflexivity.
+Qed.
+End Sim.
+
+(* ---- positions denote the spec's fields -------------------------------------------------- *)
+Definition Rel (text : str) (p : nat * nat) (q : str * list rsym) : Prop :=
+  (fst p <= snd p <= length text)%nat /\
+  firstn (snd p - fst p) (skipn (fst p) text) = fst q /\
+  skipn (fst p) text = map fst (snd q).
+
+Lemma skipn_pre : forall (pre x : str), skipn (length pre) (pre ++ x) = x.
+Proof. induction pre; simpl; auto. Qed.
+
+Lemma firstn_exact : forall (f x : str), firstn (length f) (f ++ x) = f.
+Proof. induction f; simpl; intros; [reflexivity|]. rewrite IHf. reflexivity. Qed.
+
+Lemma pos_fields : forall l pre,
+  Forall2 (Rel (pre ++ map fst l)) (ps_start (length pre) l) (rs_start l)
+  /\ Forall2 (Rel (pre ++ map fst l)) (ps_afterws (length pre) l) (rs_afterws l)
+  /\ forall st f from,
+       skipn st (pre ++ map fst l) = map fst from -> map fst from = f ++ map fst l ->
+       length pre = (st + length f)%nat ->
+       Forall2 (Rel (pre ++ map fst l)) (ps_field st (length pre) l) (rs_field f from l).
+Proof.
+  induction l as [|[r k] l IH]; intros pre.
+  - simpl. split; [constructor|]. split; [constructor|].
+    intros st f from H1 H2 H3. constructor; [|constructor].
+    unfold Rel. cbn [fst snd]. rewrite ?app_nil_r in *. split; [lia|]. split; [|exact H1].
+    rewrite H1, H2. replace (length pre - st)%nat with (length f) by lia.
+    rewrite <- (app_nil_r f) at 2. apply firstn_exact.
+  - specialize (IH (pre ++ [r])). rewrite app_length in IH. cbn [length] in IH.
+    replace (length pre + 1)%nat with (S (length pre)) in IH by lia.
+    rewrite <- app_assoc in IH. cbn [app] in IH.
+    destruct IH as (IHs & IHa & IHf). cbn [map fst].
+    assert (Hlen : (length pre <= length (pre ++ r :: map fst l))%nat) by (rewrite app_length; lia).
+    assert (Hfield : forall st f from,
+       skipn st (pre ++ r :: map fst l) = map fst from -> map fst from = f ++ r :: map fst l ->
+       length pre = (st + length f)%nat ->
+       Rel (pre ++ r :: map fst l) (st, length pre) (f, from)).
+    { intros st f from H1 H2 H3. unfold Rel. cbn [fst snd]. split; [lia|]. split; [|exact H1].
+      rewrite H1, H2. replace (length pre - st)%nat with (length f) by lia. apply firstn_exact. }
+    destruct k; cbn [ps_start ps_afterws ps_field rs_start rs_afterws rs_field].
+    + (* KC *)
+      assert (Hst : Forall2 (Rel (pre ++ r :: map fst l)) (ps_field (length pre) (S (length pre)) l)
+                            (rs_field [r] ((r, KC) :: l) l)).
+      { apply IHf.
+        - rewrite skipn_pre. reflexivity.
+        - reflexivity.
+        - simpl. lia. }
+      split; [exact Hst|]. split; [exact Hst|].
+      intros st f from H1 H2 H3. apply IHf.
+      * exact H1.
+      * rewrite H2, <- app_assoc. reflexivity.
+      * rewrite app_length. simpl. lia.
+    + (* KW *)
+      split; [exact IHs|]. split; [exact IHa|].
+      intros st f from H1 H2 H3. constructor; [apply Hfield; assumption|exact IHa].
+    + (* KD *)
+      assert (Hemp : Rel (pre ++ r :: map fst l) (length pre, length pre) ([], (r, KD) :: l)).
+      { unfold Rel. cbn [fst snd]. split; [lia|]. split.
+        - rewrite Nat.sub_diag. reflexivity.
+        - rewrite skipn_pre. reflexivity. }
+      split; [constructor; [exact Hemp|exact IHs]|]. split; [exact IHs|].
+      intros st f from H1 H2 H3. constructor; [apply Hfield; assumption|exact IHs].
+Qed.
+
+Lemma slices_rel : forall text fp fs, Forall2 (Rel text) fp fs -> slices text fp = Ok (map fst fs).
+Proof.
+  induction 1 as [|[st e] [f from] fp fs HR HF IH]; simpl.
+  - reflexivity.
+  - destruct HR as (Hb & Hf & _). cbn [fst snd] in *. unfold slice.
+    destruct (Nat.leb st e) eqn:E1; [|apply Nat.leb_gt in E1; lia].
+    destruct (Nat.leb e (length text)) eqn:E2; [|apply Nat.leb_gt in E2; lia].
+    simpl. rewrite IH, Hf. reflexivity.
+Qed.
+
+Lemma slices_app : forall text a b fa fb, slices text a = Ok fa -> slices text b = Ok fb ->
+  slices text (a ++ b) = Ok (fa ++ fb).
+Proof.
+  induction a as [|[st e] a IH]; simpl; intros b fa fb Ha Hb.
+  - inversion Ha; subst. exact Hb.
+  - destruct (slice text st e) as [f| |]; try discriminate.
+    destruct (slices text a) as [fs| |] eqn:Ea; try discriminate.
+    inversion Ha; subst. rewrite (IH b fs fb eq_refl Hb). reflexivity.
+Qed.
+
+Lemma Forall2_firstn : forall {A B} (P : A -> B -> Prop) k l1 l2,
+  Forall2 P l1 l2 -> Forall2 P (firstn k l1) (firstn k l2).
+Proof.
+  intros A B P k. induction k; intros l1 l2 H; simpl; [constructor|].
+  destruct H; constructor; auto.
+Qed.
+
+Lemma Forall2_nth : forall {A B} (P : A -> B -> Prop) l1 l2 k a,
+  Forall2 P l1 l2 -> nth_error l1 k = Some a -> exists b, nth_error l2 k = Some b /\ P a b.
+Proof.
+  intros A B P l1 l2 k a H. revert k. induction H; intros k Hk.
+  - destruct k; discriminate.
+  - destruct k; simpl in *.
+    + inversion Hk; subst. eexists. split; [reflexivity|assumption].
+    + apply IHForall2. exact Hk.
+Qed.
+
+Lemma Forall2_len : forall {A B} (P : A -> B -> Prop) l1 l2, Forall2 P l1 l2 -> length l1 = length l2.
+Proof. induction 1; simpl; congruence. Qed.
+
+(* ---- trailing white space ---------------------------------------------------------------------- *)
+Section Trim.
+Variable ifs : str.
+Notation allws := (Forall (fun r => ifs_ws ifs r = true)).
+
+Lemma drop_ws_allws : forall w rest, allws w -> drop_ws ifs (w ++ rest) = drop_ws ifs rest.
+Proof.
+  induction w as [|x w IH]; intros rest H; simpl; [reflexivity|].
+  inversion H; subst. rewrite H2. apply IH. exact H3.
+Qed.
+
+Lemma strip_allws : forall w, allws w -> strip_trailing_ws ifs w = [].
+Proof.
+  intros w H. unfold strip_trailing_ws. rewrite <- (app_nil_r (rev w)).
+  rewrite drop_ws_allws by (apply Forall_rev; exact H). reflexivity.
+Qed.
+
+Lemma strip_last : forall p x w, ifs_ws ifs x = false -> allws w ->
+  strip_trailing_ws ifs (p ++ [x] ++ w) = p ++ [x].
+Proof.
+  intros p x w Hx Hw. unfold strip_trailing_ws. rewrite !rev_app_distr. simpl.
+  rewrite <- app_assoc. rewrite drop_ws_allws by (apply Forall_rev; exact Hw).
+  simpl. rewrite Hx. change (x :: rev p) with ([x] ++ rev p).
+  rewrite rev_app_distr, rev_involutive. reflexivity.
+Qed.
+
+Lemma trim_suffix : forall A B st,
+  allws B -> (A = [] \/ exists A' x, A = A' ++ [x] /\ ifs_ws ifs x = false) ->
+  firstn (Nat.max st (length A) - st) (skipn st (A ++ B)) = strip_trailing_ws ifs (skipn st (A ++ B)).
+Proof.
+  intros A B st HB HA.
+  destruct (Nat.le_gt_cases (length A) st) as [Hle|Hgt].
+  - (* the suffix lies within the white space *)
+    replace (Nat.max st (length A) - st)%nat with O by lia. simpl.
+    rewrite skipn_app. rewrite (skipn_all2 A) by lia. simpl.
+    symmetry. apply strip_allws.
+    rewrite <- (firstn_skipn (st - length A) B) in HB. apply Forall_app in HB. tauto.
+  - destruct HA as [->|(A' & x & -> & Hx)]; [simpl in Hgt; lia|].
+    rewrite app_length in *. simpl in *.
+    replace (Nat.max st (length A' + 1) - st)%nat with (length A' + 1 - st)%nat by lia.
+    rewrite skipn_app. rewrite app_length. simpl.
+    replace (st - (length A' + 1))%nat with O by lia. simpl.
+    rewrite (skipn_app st A' [x]). replace (st - length A')%nat with O by lia. simpl.
+    rewrite <- app_assoc. simpl.
+    change (skipn st A' ++ x :: B) with (skipn st A' ++ [x] ++ B).
+    rewrite (strip_last (skipn st A') x B Hx HB).
+    replace (length A' + 1 - st)%nat with (length (skipn st A' ++ [x])).
+    2:{ rewrite app_length, skipn_length. simpl. lia. }
+    rewrite app_assoc. apply firstn_exact.
+Qed.
+End Trim.
+
+(* ---- the theorem ----------------------------------------------------------------------------------- *)
+Theorem read_fields_spec : forall oifs line n raw,
+  read_fields oifs line n raw = Ok (spec_read_fields oifs line n raw).
+Proof.
+  intros oifs line n raw. unfold read_fields, spec_read_fields.
+  set (ifs := cfg_ifs oifs).
+  assert (Ht0 : tinv ifs r0).
+  { exists [], []. split; [reflexivity|]. split; [reflexivity|]. split; [constructor|]. left; reflexivity. }
+  destruct (loop_sim ifs raw line r0 rinv_r0 Ht0) as (s & E & Hinv & Ht & Hbuf & Hfp).
+  rewrite E. simpl in Hbuf, Hfp.
+  set (cs := unescape raw line false) in *.
+  assert (Hks : map (rsym_of ifs) cs = rsyms ifs raw line) by reflexivity.
+  assert (Htext : buf s = map fst (rsyms ifs raw line)).
+  { rewrite Hbuf. unfold rsyms. fold cs. rewrite map_map. reflexivity. }
+  unfold expected in Hfp. simpl in Hfp. rewrite Hks in Hfp.
+  destruct (pos_fields (rsyms ifs raw line) []) as (Hrel & _ & _). simpl in Hrel.
+  rewrite <- Htext in Hrel. rewrite <- Hfp in Hrel.
+  set (fs := rs_start (rsyms ifs raw line)) in *.
+  unfold rf_finish. unfold final_fp in Hrel.
+  destruct (fpos s) as [|[st e] t] eqn:Ef.
+  - inversion Hrel. simpl. destruct ((0 <? n)%Z && (n <? 0)%Z) eqn:En; [|reflexivity].
+    apply andb_prop in En. destruct En as [En1 En2].
+    apply Z.ltb_lt in En1. apply Z.ltb_lt in En2. lia.
+  - set (fp := rev (if infield s then (st, length (buf s)) :: t else (st, e) :: t)) in *.
+    rewrite (Forall2_len _ _ _ Hrel).
+    destruct ((0 <? n)%Z && (n <? Z.of_nat (length fs))%Z) eqn:En.
+    + apply andb_prop in En. destruct En as [En1 En2].
+      apply Z.ltb_lt in En1. apply Z.ltb_lt in En2.
+      set (k := Z.to_nat (n - 1)).
+      destruct (nth_error fp k) as [[st' e']|] eqn:Enth.
+      * destruct (Forall2_nth _ _ _ _ _ Hrel Enth) as ([f from] & Hn2 & HR). rewrite Hn2.
+        apply slices_app.
+        -- apply slices_rel. apply Forall2_firstn. exact Hrel.
+        -- simpl. destruct HR as (Hb & _ & Hsk). cbn [fst snd] in *.
+           destruct Hinv as [Htr _].
+           unfold slice.
+           destruct (Nat.leb st' (Nat.max st' (trim_end s))) eqn:E1; [|apply Nat.leb_gt in E1; lia].
+           destruct (Nat.leb (Nat.max st' (trim_end s)) (length (buf s))) eqn:E2; [|apply Nat.leb_gt in E2; lia].
+           simpl. rewrite <- Hsk.
+           destruct Ht as (A & B & HAB & HA & HB & Hlast). rewrite HAB, <- HA.
+           rewrite (trim_suffix ifs A B st' HB Hlast). reflexivity.
+      * apply nth_error_None in Enth. rewrite (Forall2_len _ _ _ Hrel) in Enth. lia.
+    + apply slices_rel. exact Hrel.
+Qed.
+
+(* ---- readLine and the builtin ------------------------------------------------------------------------ *)
+Lemma reply_unescape : forall v es, reply_loop v es = map fst (unescape false v es).
+Proof.
+  induction v as [|b v IH]; intros es; simpl; [reflexivity|].
+  destruct (b =? BSL); simpl.
+  - destruct es; simpl; rewrite IH; reflexivity.
+  - rewrite IH. reflexivity.
+Qed.
+
+Lemma unescape_raw : forall v es, map fst (unescape true v es) = v.
+Proof.
+  induction v as [|b v IH]; intros es; simpl; [reflexivity|].
+  rewrite andb_false_r. simpl. rewrite IH. reflexivity.
+Qed.
+
+Lemma removelast_snoc : forall (l : str) x, removelast (l ++ [x]) = l.
+Proof. intros. rewrite removelast_app by discriminate. simpl. apply app_nil_r. Qed.
+
+Lemma read_line_spec : forall raw inp,
+  (forall line, read_line raw inp line false =
+     Ok (line ++ fst (spec_line raw inp), snd (spec_line raw inp)))
+  /\ (raw = false -> forall line0, read_line raw inp (line0 ++ [BSL]) true =
+       match inp with
+       | [] => Ok (line0 ++ [BSL], true)
+       | c :: rest => if c =? NL then Ok (line0 ++ fst (spec_line raw rest), snd (spec_line raw rest))
+                      else Ok (line0 ++ BSL :: c :: fst (spec_line raw rest), snd (spec_line raw rest))
+       end).
+Proof.
+  intros raw. induction inp as [|b inp [IH1 IH2]].
+  - split; intros; simpl; rewrite ?app_nil_r; reflexivity.
+  - split.
+    + intros line. cbn [read_line spec_line].
+      destruct (b =? NL) eqn:Enl.
+      * assert (b =? BSL = false) by (apply N.eqb_eq in Enl; subst; reflexivity).
+        rewrite H. rewrite !andb_false_r. simpl. rewrite app_nil_r. reflexivity.
+      * destruct raw; simpl.
+        -- rewrite IH1. destruct (spec_line true inp). simpl. rewrite <- app_assoc. reflexivity.
+        -- destruct (b =? BSL) eqn:Ebs.
+           ++ apply N.eqb_eq in Ebs. subst b. rewrite (IH2 eq_refl line).
+              destruct inp as [|c rest]; [reflexivity|].
+              destruct (c =? NL); [reflexivity|].
+              destruct (spec_line false rest). reflexivity.
+           ++ rewrite IH1. destruct (spec_line false inp). simpl. rewrite <- app_assoc. reflexivity.
+    + intros -> line0. cbn [read_line]. simpl negb. cbn [andb].
+      destruct (b =? BSL) eqn:Ebs.
+      * assert (b =? NL = false) by (apply N.eqb_eq in Ebs; subst; reflexivity). rewrite H.
+        rewrite IH1. apply N.eqb_eq in Ebs. subst b. rewrite <- !app_assoc. reflexivity.
+      * destruct (b =? NL) eqn:Enl.
+        -- destruct (line0 ++ [BSL]) eqn:El; [destruct line0; discriminate|]. rewrite <- El.
+           rewrite removelast_snoc. apply IH1.
+        -- cbn [andb]. rewrite IH1. rewrite <- !app_assoc. reflexivity.
+Qed.
+
+Theorem read_builtin_spec : forall oifs raw t inp,
+  read_builtin oifs raw t inp = Ok (spec_read oifs raw t inp).
+Proof.
+  intros. unfold read_builtin, spec_read.
+  destruct (read_line_spec raw inp) as [H _]. rewrite (H []). simpl app.
+  destruct (spec_line raw inp) as [line eof]. cbn [fst snd].
+  destruct t.
+  - destruct raw.
+    + rewrite unescape_raw. reflexivity.
+    + rewrite reply_unescape. reflexivity.
+  - rewrite read_fields_spec. reflexivity.
+  - rewrite read_fields_spec. reflexivity.
+Qed.
